@@ -72,6 +72,11 @@ impl Property for C01 {
     fn fuzz_sequences(&self) -> Vec<(&'static str, usize)> {
         vec![("/ops", 50)]
     }
+    fn fuzz_admissible(&self, case: &Self::Case) -> bool {
+        // blocks with more than a thousand outputs make every later query of the history
+        // expensive: at most two per case (the generator draws one in ~180 operations)
+        case.hist.ops.iter().filter(|o| matches!(o, crate::hist::Op::BigFund { .. })).count() <= 2
+    }
     fn run(&self, case: &Case01) -> Outcome {
         let budgets = case.budgets.clone();
         let case = &case.hist;
